@@ -193,6 +193,8 @@ def electre_params(rnd, crits, custom_dist_prob=0.3):
         if 'v' in pattern:
             e['v'] = {'a': 0, 'b': v}
         ec[c['id']] = e
+    if rnd.random() < 0.12:
+        ec['undeclared'] = {'k': 1.0, 'q': {'a': 0, 'b': 0.5}}
     mp = {'electreCriteria': ec}
     if rnd.random() < custom_dist_prob:
         mp['electreDistillation'] = rnd.choice([{'a': -0.15, 'b': 0.3}, {'a': -0.25, 'b': 0.5}, {'a': 0, 'b': 0.125},
@@ -263,6 +265,8 @@ def heuristic_request(rnd, method=None, n_alts=None, n_crits=None, distinct_weig
           'randomAlternativesOrdering': rnd.random() < 0.4}
     if method == 'majorityHeuristic':
         mp['weights'] = weights_for(rnd, cids)
+        if rnd.random() < 0.12:
+            mp['weights']['undeclared'] = rnd.choice([0.0625, 7.0])
         cc = current_choice(rnd, alts, chose)
         if cc is not None:
             mp['currentChoice'] = cc
@@ -275,6 +279,8 @@ def heuristic_request(rnd, method=None, n_alts=None, n_crits=None, distinct_weig
             mp['weights'] = dict(zip(cids, ws))
         else:
             mp['weights'] = weights_for(rnd, cids, 'ties')
+        if rnd.random() < 0.12:
+            mp['weights']['undeclared'] = rnd.choice([0.0625, 7.0])
         fn, p = level_params(rnd, crits, alts, increasing=True)
         mp['function'], mp['params'] = fn, p
     else:
